@@ -4,6 +4,7 @@ package outq
 
 import (
 	"bufio"
+	"context"
 	"encoding/json"
 	"flag"
 	"fmt"
@@ -48,6 +49,16 @@ func session(name string, nUser, nHandler, m int, pacing string, rng *rand.Rand)
 	}
 	if !s.Welcome("me", 5*time.Second) {
 		return nil, fmt.Errorf("registration did not complete")
+	}
+	{
+		// a Connect that is refused (the client is connected) must change nothing - also not when the context it
+		// was given is cancelled afterwards
+		ctxB, cancelB := context.WithCancel(context.Background())
+		if err := s.C.ConnectContext(ctxB); err == nil {
+			cancelB()
+			return nil, fmt.Errorf("Connect on a connected client was not refused")
+		}
+		cancelB()
 	}
 	if strings.Contains(name, "second-connection") {
 		// the session proper runs on a second connection that was requested (from another goroutine) while the
